@@ -139,6 +139,7 @@ func c27Child(args []string) int {
 	log := stores.NewLog(&stores.Clock{})
 	w.Instrument(log)
 	pf := 0.0
+	mode, modeBase := "", 0
 	gate := stores.NewGate(false)
 	gateOn := false
 	pr := r.Split("plan")
@@ -148,6 +149,34 @@ func c27Child(args []string) int {
 		defer pmu.Unlock()
 		if gateOn && (c.Kind == "Write" || c.Kind == "CreateFile") {
 			return stores.Action{Gate: gate}
+		}
+		// targeted multi-fault modes: a primary failure and the failure of the cleanup it provokes
+		switch mode {
+		case "update+cleanup":
+			if c.Kind == "Update" || c.Kind == "TombstoneFile" || c.Kind == "Abort" {
+				count("modefault." + mode + "." + c.Kind)
+				return stores.Action{Fail: true}
+			}
+		case "write+cleanup":
+			if (c.Kind == "Write" && c.N%3 == 2) || c.Kind == "TombstoneFile" || c.Kind == "Abort" {
+				count("modefault." + mode + "." + c.Kind)
+				return stores.Action{Fail: true}
+			}
+		case "close+cleanup":
+			if c.Kind == "Close" || c.Kind == "TombstoneFile" || c.Kind == "Abort" {
+				count("modefault." + mode + "." + c.Kind)
+				return stores.Action{Fail: true, PostEffect: c.Kind == "Close" && c.N%2 == 0}
+			}
+		case "postcommit-cleanup":
+			if c.Kind == "TombstoneFile" {
+				count("modefault." + mode + "." + c.Kind)
+				return stores.Action{Fail: true}
+			}
+		case "latecreate+cleanup":
+			if (c.Kind == "CreateFile" && c.N > modeBase) || c.Kind == "TombstoneFile" || c.Kind == "Abort" {
+				count("modefault." + mode + "." + c.Kind)
+				return stores.Action{Fail: true}
+			}
 		}
 		switch c.Kind {
 		case "CreateFile", "Write", "Close", "Abort", "Update", "TombstoneFile", "OpenFile", "Read", "Seek", "IterYield":
@@ -161,6 +190,16 @@ func c27Child(args []string) int {
 	spec := gen.PickEngineSpec(r.Split("spec"), v, tok)
 	spec.BufRows = core.Pick(r, []int{2, 5, 50})
 	spec.IngestBuf = core.Pick(r, []int{1, 4, 50})
+	if ci%2 == 0 {
+		// merge-friendly: few partitions, no minmax key sets, generous limits, so that Merge
+		// really publishes outputs (and several groups with a small per-file budget)
+		spec.Part = core.Pick(r, []gen.PartFunc{{Name: "none"}, {Name: "bucket:2", Fn: gen.PickPartFuncBucket(2)}, {Name: "bucket:4", Fn: gen.PickPartFuncBucket(4)}})
+		spec.Partition = spec.Part.Name
+		spec.MinMax = nil
+		spec.RGRows, spec.RGBytes = 1000, 10<<20
+		spec.MergeFiles = core.Pick(r, []int{4, 10})
+		spec.MaxFileSize = core.Pick(r, []int{2500, 10 << 30})
+	}
 	cfg := spec.Config()
 	cfg.MaxBufferedTime = 40 * time.Millisecond
 	cfg.Logger = nil
@@ -219,6 +258,55 @@ func c27Child(args []string) int {
 	}
 	pf = 0
 	flush()
+	// 2b. a primary failure plus the failure of the cleanup it provokes, on the flush and merge
+	// paths (the paths that have something to report that nobody asked for)
+	setMode := func(m string) {
+		pmu.Lock()
+		mode, modeBase = m, log.Count("CreateFile")
+		pmu.Unlock()
+	}
+	for _, m := range []string{"update+cleanup", "write+cleanup", "close+cleanup", "latecreate+cleanup", "postcommit-cleanup"} {
+		// several small files to merge
+		for k := 0; k < 4; k++ {
+			ingest("normal")
+			flush()
+		}
+		setMode(m)
+		mctx, mcancel := context.WithTimeout(context.Background(), 10*time.Second)
+		if _, err := e.Merge(mctx); err != nil {
+			count("path.merge_failure_with_failed_cleanup." + m)
+		}
+		mcancel()
+		if m != "postcommit-cleanup" && m != "latecreate+cleanup" {
+			ingest("normal")
+			flush() // the same double fault on the flush path
+			count("path.flush_failure_with_failed_cleanup")
+		}
+		setMode("")
+	}
+	// a Merge whose context is cancelled while it runs, against a store that then fails every call
+	for k := 0; k < 3; k++ {
+		ingest("normal")
+		flush()
+	}
+	{
+		mctx, mcancel := context.WithCancel(context.Background())
+		pmu.Lock()
+		cancelAt := log.Count("Write") + pr.Range(0, 3)
+		pmu.Unlock()
+		go func() {
+			for t := 0; t < 2000 && log.Count("Write") <= cancelAt; t++ {
+				time.Sleep(100 * time.Microsecond)
+			}
+			setMode("update+cleanup")
+			mcancel()
+		}()
+		if _, err := e.Merge(mctx); err != nil {
+			count("path.merge_cancelled")
+		}
+		mcancel()
+		setMode("")
+	}
 	// 3. external-writer files with absent filters: the "missing filter" warnings
 	if xd, err := w.AddExtFile(r.Split("ext"), 0, 12, 0); err == nil {
 		_ = xd
